@@ -12,6 +12,8 @@ from .assume import AssumeH, VariableAssumeH, VariableEvaluateH
 from .reduce import ReduceH
 from .flags import FlagsH
 from .c04 import AllH, AnyH, XorH, XNorH, ImplyH, NotH, AtMostH, AtLeastKH
+from .c18 import AddH
+from .c14 import DefaultPriosH
 
 
 def framed(cls, name=None):
@@ -53,7 +55,7 @@ class ToShortH(Harness):
 
 HARNESSES = [framed(NegateH), framed(AssumeH), framed(VariableAssumeH), framed(VariableEvaluateH), framed(ReduceH),
              framed(FlagsH), framed(AllH), framed(AnyH), framed(XorH), framed(XNorH), framed(ImplyH), framed(NotH),
-             framed(AtMostH), framed(AtLeastKH), ToShortH()]
+             framed(AtMostH), framed(AtLeastKH), ToShortH(), framed(AddH), framed(DefaultPriosH)]
 
 
 # ------------------------------------------------------------------------------------------------------------------
